@@ -43,6 +43,22 @@ def gen(rng, tier):
     weights = None if rng.random() < 0.5 else [rng.choice([1.0, 0.5, 2.0, 1.25]) for _ in range(N)]
     perm = list(range(N))
     rng.shuffle(perm)
+    if rng.random() < 0.3:
+        # coordinates exactly on the lower box face (and on cell boundaries)
+        for p in pos:
+            for ax in range(3):
+                if rng.random() < 0.25:
+                    p[ax] = rng.choice([0, 0, Q // 2, Q - 1])
+    if rng.random() < 0.35:
+        # one of the two orders is sorted along an axis (what a catalogue read slab by slab looks like): the relation
+        # "permuting the particles changes nothing" includes the permutation that sorts them
+        ax = rng.randrange(3)
+        order = sorted(range(N), key=lambda i: (pos[i][ax], i))
+        if rng.random() < 0.5:
+            perm = order
+        else:
+            pos = [pos[i] for i in order]
+            weights = None if weights is None else [weights[i] for i in order]
     return {'nmesh': nmesh, 'L': L, 'Q': Q, 'pos': pos, 'pos_other': pos_other, 'weights': weights, 'perm': perm,
             'shift': [rng.randrange(0, nmesh), rng.randrange(0, nmesh), rng.randrange(0, nmesh)],
             'paste': rng.choice(['TSC', 'TSC', 'CIC']), 'compensated': rng.random() < 0.5,
